@@ -307,7 +307,28 @@ func (n *quotedString) Text() string {
 
 // String returns the SQL/JSON path-encoded quoted string.
 func (n *quotedString) String() string {
-	return strconv.Quote(n.str)
+	return quote(n.str)
+}
+
+// quote returns str as a double-quoted SQL/JSON path string literal. It
+// formats str like [strconv.Quote] except for the two escape sequences that
+// the path lexer does not read back as the same character: "\a", which it
+// writes as "\x07", and "\UNNNNNNNN", which it writes as "\u{NNNNNN}".
+func quote(str string) string {
+	buf := make([]byte, 0, len(str)+len(`""`))
+	buf = append(buf, '"')
+	for _, r := range str {
+		switch {
+		case r == '\a':
+			buf = append(buf, `\x07`...)
+		case r > 0xFFFF && !strconv.IsPrint(r):
+			buf = fmt.Appendf(buf, `\u{%x}`, r)
+		default:
+			q := strconv.Quote(string(r))
+			buf = append(buf, q[1:len(q)-1]...)
+		}
+	}
+	return string(append(buf, '"'))
 }
 
 // writeTo writes n.String to buf.
@@ -874,7 +895,7 @@ func (n *RegexNode) writeTo(buf *strings.Builder, _, withParens bool) {
 	}
 
 	n.operand.writeTo(buf, false, n.operand.priority() <= n.priority())
-	fmt.Fprintf(buf, " like_regex %q%v", n.pattern, n.flags)
+	fmt.Fprintf(buf, " like_regex %v%v", quote(n.pattern), n.flags)
 
 	if withParens {
 		buf.WriteRune(')')
